@@ -145,6 +145,7 @@ def run(ctx):
     recs = sc.run_games(ctx, games, limit=10, tag="c14")
     sc.correspondence(ctx, recs, "cmp_diag", "c14")
     sc.padding_check(ctx, recs, ("erm", "ermr"), 40 if ctx.quick else 400, "c14")
+    sc.loglevel_check(ctx, recs, ("erm", "ermr"), 25 if ctx.quick else 250, "c14")
     check(ctx, recs)
 
 
